@@ -84,6 +84,8 @@ def slicesOf (kind : String) (tag : String) : List String :=
                else if kind == "liq" then ["C06"] else if kind == "payfunding" then ["C11"]
                else if kind == "withdraw" || kind == "deposit" then ["C05"] else [])
   | "allow" => ["C03"]
+  | "xfers" => ["C03"] ++ (if kind == "open" then ["C12"] else if kind == "close" then ["C04", "C12"]
+               else if kind == "liq" then ["C06"] else if kind == "payfunding" then ["C11"] else [])
   | _ => []
 
 /-- the model rejected, the implementation accepted: attribute by the guard that fired in the model -/
@@ -161,7 +163,8 @@ def handleWObs (acc : Acc) (h : WHist) (kv : KV) (line : String) : Acc × WHist 
           if !ok then
             (slicesOfImplErr kind).foldl (fun a p => a.report "DISAGREE" p s!"{kind}:accept(model-ok,impl-err:{tkv.str "err"})" tline) acc
           else
-            let tags := diffWorld mw obs.w
+            let tags := diffWorld mw obs.w ++
+              (if mw.log.filter (fun x => x.2.2 != 0) != step.xfers.filter (fun x => x.2.2 != 0) then ["xfers"] else [])
             tags.foldl (fun a tag =>
               (slicesOf kind tag).foldl (fun a p => a.report "DISAGREE" p s!"{kind}:state:{tag}" tline) a) acc
         | .error e =>
